@@ -197,10 +197,10 @@ def run(chk: core.Check):
         "refits after re-tuning the user's detector. Non-trivial = at least one flagged segment; distinct by case hash"
     )
     rng = core.rng_for(chk.seed, "C17/fixed")
-    chk.run_stream("fixed", [gen_fixed(rng, 16) for _ in range(N)], impl_fixed, line=line_fixed, canon=canon, oracle=oracle_fixed,
+    chk.run_stream("fixed", core.Gen(gen_fixed, rng, 16, N), impl_fixed, line=line_fixed, canon=canon, oracle=oracle_fixed,
                    site="StatThresholdAnomaliser", nontrivial=lambda c, r: r.get("outcome") == "ok" and len(r["anoms"]) > 0)
     rng = core.rng_for(chk.seed, "C17/real")
-    chk.run_stream("real", [gen_real(rng, 40) for _ in range(N // 4)], impl_real, oracle=oracle_real, site="StatThresholdAnomaliser/real",
+    chk.run_stream("real", core.Gen(gen_real, rng, 40, N // 4), impl_real, oracle=oracle_real, site="StatThresholdAnomaliser/real",
                    nontrivial=lambda c, r: r.get("outcome") == "ok" and len(r["anoms"]) > 0,
                    describe=lambda c: {k: v for k, v in c.items() if k != "X"} | {"X[:6]": c["X"][:6]})
     return chk.finish()
